@@ -176,7 +176,7 @@ struct RunResult {
 }
 
 /// Run one script against the real server; returns what it wrote and the event log (spec vocabulary).
-fn run_script(queries: &Value, script: &[(String, usize)], flush_rest: bool) -> RunResult {
+fn run_script(queries: &Value, script: &[(String, usize)], flush_rest: bool, order_desc: bool) -> RunResult {
     let stream: Vec<u8> = queries.as_array().unwrap().iter().flat_map(query_bytes).collect();
     let _ = N_ITEMS;
     let src = Source(Arc::new(Mutex::new(SrcState {
@@ -184,7 +184,7 @@ fn run_script(queries: &Value, script: &[(String, usize)], flush_rest: bool) -> 
         // serial 4 lacks the IPv6 origin, so a serial query for 4 gets a diff of exactly one announcement (carried by every version)
         hist: vec![Version { session: 1, serial: 4, data: vec![(0, "o4".into(), 0), (1, "k1".into(), 0), (2, "c1".into(), 2)] },
                    Version { session: 1, serial: 5, data: vec![(0, "o4".into(), 0), (0, "o6".into(), 0), (1, "k1".into(), 0), (2, "c1".into(), 2)] }],
-        timing: 1, window: 1, serial_base: 0, calls: 0, pending: vec![], ready: true, cut_at: None, dead: Default::default(),
+        timing: 1, window: 1, serial_base: 0, calls: 0, pending: vec![], ready: true, cut_at: None, dead: Default::default(), order_desc,
     })));
     let wire = Arc::new(Mutex::new(Wire::default()));
     let rt = tokio::runtime::Builder::new_current_thread().enable_time().start_paused(true).build().unwrap();
@@ -276,7 +276,8 @@ pub fn replay(args: &[String]) {
         let script: Vec<(String, usize)> = c["script"].as_array().unwrap().iter().map(|a| (a[0].as_str().unwrap().to_string(), a[1].as_u64().unwrap() as usize)).collect();
         let closes = script.iter().any(|a| a.0 == "close");
         let n_notify = script.iter().filter(|a| a.0 == "notify").count();
-        match guarded(|| run_script(&c["queries"], &script, true)) {
+        // the source hands out its items in either order (every other case: the items version 0 and 1 cannot carry come first)
+        match guarded(|| run_script(&c["queries"], &script, true, ci % 2 == 1)) {
             Err(m) => s.violation("panic", m, c.clone()),
             Ok(r) => {
                 let want = expected(&c["answers"]);
@@ -353,7 +354,7 @@ pub fn drive(args: &[String]) {
                 _ => { if rng.chance(1, 6) { script.push(("close".to_string(), 0)); break; } }
             }
         }
-        match guarded(|| run_script(&queries, &script, false)) {
+        match guarded(|| run_script(&queries, &script, false, false)) {
             Ok(r) => { for e in r.events { t.ev(e); } s.eval(Some(&format!("{i}"))); }
             Err(m) => s.violation("trace:panic", m, json!({"seed": seed, "i": i})),
         }
